@@ -306,6 +306,36 @@ func dbExtra(d *db, op simrt.Op) bool {
 		}
 		if p.Count == 0 || p.ID != want {
 			d.fail(op.K, "%s on node %d = row %d (count %d) want row %d (rows with bits %v)", q, d.node(I[0]), p.ID, p.Count, want, rows)
+			return true
+		}
+		// the count that comes with the row: the row's columns (within the filter) over all
+		// shards, whatever the order in which the shards' results arrive (MinRow without a
+		// filter reports 1 per shard by design and is only compared between coordinators)
+		if fe != nil || op.K == "maxrow" {
+			total := uint64(0)
+			for c := range f.bits[want] {
+				if filt == nil || filt[c] {
+					total++
+				}
+			}
+			if p.Count != total {
+				d.fail(op.K+"-count", "%s on node %d = row %d with count %d, but the row holds %d columns (within the filter) over all shards", q, d.node(I[0]), p.ID, p.Count, total)
+				return true
+			}
+		}
+		for i, nd := range d.cl.nodes {
+			if !nd.opened || nd.gone || i == d.node(I[0]) {
+				continue
+			}
+			res2, err := d.query(i, ix.name, q)
+			if err != nil {
+				d.fail("query-error", "%s on node %d: %v", q, i, err)
+				return true
+			}
+			if p2, _ := res2[0].(pilosa.Pair); p2 != p {
+				d.fail(op.K+"-count", "%s = %+v on node %d but %+v on node %d", q, p, d.node(I[0]), p2, i)
+				return true
+			}
 		}
 		d.c.Probe("minmaxrow-checked")
 	case "allnodes": // S=[index,expr] : same query on every node, all answers equal and equal to the model
